@@ -55,11 +55,14 @@ def run(ck):
     exe = ck.cc("h_c03_g", ["h_c03.c"], flags=G, objs=[GUARD_ALLOC])
     if not exe: return
     hist = [["layout %d" % ck.rng.choice([0, 8, 24])] + hashgen.history(ck.rng, list(hashgen.FAMILIES)[i % 5], churn=(i % 3 == 0)) for i in range(100 if q else 1200)]
+    for h in hist:
+        for pos in (len(h) // 3, 2 * len(h) // 3): h.insert(max(pos, 2), "newfail %d" % ck.rng.randint(0, 1))
     for h in hist: ck.count_distinct(("hash", tuple(h)))
     ck.kcompare("hash", exe, "c03", hist, keep_head=2, corpus_prefix="none", what="hash table allocator discipline")
     exe = ck.cc("h_c06_g", ["h_c06.c"], flags=G, objs=[GUARD_ALLOC])
     if not exe: return
     hist = [avlgen.history(ck.rng, dups=(i % 2 == 0), style="rand") for i in range(100 if q else 1200)]
+    for h in hist: h.insert(max(len(h) // 2, 1), "newfail")
     for h in hist: ck.count_distinct(("avl", tuple(h)))
     ck.kcompare("avl", exe, "c06", hist, corpus_prefix="none", what="ZixTree allocator discipline")
     # ---- string builders, environment, filesystem, ring: every fault index, guard armed ----------
@@ -97,7 +100,7 @@ def run(ck):
                 for mode in [[], ["cfr#0=EXDEV"], ["cfr#0=short100", "cfr#1=EINVAL"], ["cfr#0=ENOSYS"], ["cfr#0=EXDEV", "alloc#0=fail"], ["cfr#0=EXDEV", "write#1=ENOSPC"], ["cfr#0=EXDEV", "read#1=EIO"]]:
                     lines.append("copy reg %d %s %d %d %s" % (size, dst, ow, blk, " ".join(mode))); ck.count_distinct(("copy", lines[-1]))
     ck.kcompare("copy", exe, "c14", [lines], keep_head=0, impl_args=[s14], corpus_prefix="c14", what="copy_file allocator discipline (kernel copy and user-space loop)")
-    exe = ck.cc("h_c15_g", ["h_c15.c"], flags=G, objs=zix_objs(files14))
+    exe = ck.cc("h_c15_g", ["h_c15.c"], flags=G + [fsgen.FSTAT_WRAP], objs=zix_objs(files14))
     if not exe: return
     s15 = os.path.join(ck.work, "fs15g"); os.makedirs(s15, exist_ok=True)
     sp = ck.write_script("page.script", ["page"])
